@@ -42,10 +42,13 @@ def register(gen, T):
             out.append(f"  | .{st} => {lean_str(nm)}\n")
         if seen != {"Vertex", "Task", "Mesh", "Pixel", "Compute"}:
             raise ExtractError(f"MSL entry names cover {sorted(seen)}")
-        # HLSL reports the function's own name
-        hl = re.search(r'entry_point:\s*ir\s*\.function_registry\s*\.get_function_name\(stage\.entry_point\)', normws(bp))
-        out.append(f"\n/-- HLSL stages report the entry function's source name -/\ndef hlslReportsFunctionName : Bool := {'true' if hl else 'false'}\n\n")
-
+        # HLSL reports the name the exporter generated for each stage's entry function (in stage order)
+        nbp0 = normws(bp)
+        hl = (re.search(r'for \(stage, entry_point\) in pipeline \.stages \.iter\(\) \.zip\(&exported_source\.entry_point_names\)', nbp0)
+              and re.search(r'entry_point: entry_point\.clone\(\),', nbp0))
+        hlsl_lib = normws(T.src("hlsl/src/ast_generate.rs"))
+        gen_names = re.search(r'for stage in &module\.pipelines\[pipeline\]\.stages \{ entry_point_names\.push\(context\.get_function_name\(stage\.entry_point\)\?\.to_string\(\)\); \}', hlsl_lib)
+        out.append(f"\n/-- HLSL stages report the exporter's generated name of the entry function, one per stage in order -/\ndef hlslReportsEmittedName : Bool := {'true' if (hl and gen_names) else 'false'}\n\n")
         # --- shape of the selection loop
         nb = normws(body)
         facts = {
